@@ -221,7 +221,7 @@ def fallback_pass(rng, k):
     # recorded times follow the file order of a normal pass; then impose the line-number order
     tp.nums = nums
     header = rng.choice(["ok", "ok", "hours-off", "days-off", "day0", "day400", "day511", "year0", "year60000", "ms-big",
-                         "first-far"])
+                         "first-far", "year9999-overflow", "year9999-overflow"])
     y, d, m = ms_to_ydm(start)
     if header == "hours-off":
         tp.header_ms = start + rng.choice([-1, 1]) * rng.randint(361000, 5 * 3600000)
@@ -239,6 +239,14 @@ def fallback_pass(rng, k):
         tp.header_fields = [2060 if fam == "pod" else 60000, d, m]
     elif header == "ms-big":
         tp.header_fields = [y, d, 2 ** 27 - 1 if fam == "pod" else 2 ** 32 - 1]
+    elif header == "year9999-overflow":
+        # a year field that is still a valid year, with a day / ms field that pushes the date beyond 9999-12-31 (KLM only:
+        # the POD year has two digits): the header time is unusable, the sanitised line times are still returned
+        if fam == "klm":
+            tp.header_fields = rng.choice([[9999, 366, m], [9999, 365, 86400000 + m], [rng.randint(9820, 9999), 65535, m],
+                                           [9999, 1, m], [9998, 400, m]])
+        else:
+            tp.header_fields = [y, 511, m]
     elif header == "first-far":
         tp.nums = [x + 5000 for x in tp.nums]
     return tp, {"order": order, "header": header, "kind": "fallback", "gaps": "-", "k": 0}
